@@ -77,6 +77,7 @@ class TlcResult:
         self.wall = 0.0
         self.cmd = ""
         self.counterexample = ""
+        self.traces = 0
 
 
 def run_tlc(module, cfg_text, wd, workers=4, timeout=900, deadlock=False, depth_first=False,
@@ -134,6 +135,12 @@ def run_tlc(module, cfg_text, wd, workers=4, timeout=900, deadlock=False, depth_
         m = re.match(r"^(\d+) states generated, (\d+) distinct states found", line)
         if m:
             res.generated, res.distinct = int(m.group(1)), int(m.group(2))
+        m = re.match(r"^The number of states generated: (\d+)", line)
+        if m and res.generated == 0:
+            res.generated = int(m.group(1))          # simulation mode
+        m = re.match(r"^Progress: \d+ states checked, (\d+) traces generated", line)
+        if m:
+            res.traces = int(m.group(1))
         m = re.match(r"^The depth of the complete state graph search is (\d+)", line)
         if m:
             res.depth = int(m.group(1))
@@ -474,6 +481,8 @@ def trace_validate(module, trace_events, wd, constants=None, timeout=600, extra_
         raise ToolError("trace spec %s printed no TRACE_RESULT\n%s" % (module, r.stdout[-3000:]))
     out = res[-1]
     out["status"] = r.status
+    out["states"] = r.distinct
+    out["generated"] = r.generated
     return out
 
 
